@@ -311,6 +311,33 @@ def run(tier, seed):
                 got = f'{type(e).__name__}: {e}'
             if got != base:
                 res.violation('h06:comment:' + c.strip()[:20], 'block comments are white space, whatever their closing looks like', {'text': text}, repr(got)[:200], repr(base)[:200])
+    # string literals are taken verbatim between their delimiters, whatever surrounds the statement (indentation of its lines, quote
+    # characters of the other kind at the ends of the literal, line breaks inside it)
+    from beanquery.parser import ast as A2
+    for lit in ['a\n    b', '  lead', 'trail  ', '\n', ' \n \n x', '"say"', 'say"', "it's", '"', 'a\n\n  b\n ']:
+        q = "'" if "'" not in lit else '"'
+        if q in lit:
+            continue
+        for text in (f'SELECT {q}{lit}{q}', f'    SELECT {q}{lit}{q}\n    FROM #t\n', f'\tSELECT a\n\tWHERE b = {q}{lit}{q}'):
+            res.case(('literal', text))
+            try:
+                got = [n.value for n in parser.parse(text).walk() if isinstance(n, A2.Constant)]
+            except Exception as e:  # noqa
+                got = f'{type(e).__name__}: {e}'
+            if got != [lit]:
+                res.violation('h06:string-literal:' + repr(lit), 'a string literal denotes exactly the characters between its delimiters', {'text': text}, got, [lit])
+    # redundant parentheses around a FROM expression (and around parts of it) do not change the statement
+    for plain, paren in [('SELECT a FROM year = 2014', 'SELECT a FROM (year = 2014)'), ('SELECT a FROM x AND y CLOSE', 'SELECT a FROM (x AND y) CLOSE'),
+                         ('SELECT a FROM x OR y', 'SELECT a FROM (x) OR y'), ('SELECT a FROM x OPEN ON 2020-01-01', 'SELECT a FROM ((x)) OPEN ON 2020-01-01'),
+                         ('SELECT a FROM (SELECT b FROM x)', 'SELECT a FROM (SELECT b FROM (x))'), ('BALANCES FROM year = 2014', 'BALANCES FROM (year = 2014)')]:
+        res.case(('from-parens', paren))
+        try:
+            a1, a2 = parser.parse(plain), parser.parse(paren)
+        except Exception as e:  # noqa
+            res.violation('h06:from-parens:' + paren, 'redundant parentheses around a FROM expression parse', {'text': paren}, f'{type(e).__name__}: {e}', 'same AST as without')
+            continue
+        if a1 != a2:
+            res.violation('h06:from-parens:' + paren, 'redundant parentheses do not change the AST', {'text': paren}, repr(a2)[:200], repr(a1)[:200])
     # parsing is a function of the text: what was done with an earlier parse of the same text (compiling it numbers its positional
     # placeholders in place) does not show in a later parse
     import copy
